@@ -359,4 +359,101 @@ def run (pol : Policy) : List Oms → List Request → E (List Oms × List Outco
     let (s2, os) ← run pol s1 rs
     pure (s2, o :: os)
 
+
+/-! ### C15: OMS construction and the spectrum map of an OMS -/
+
+/-- an amplifier band `(f_min, f_max)` in Hz (the `spacing` key plays no role for the spectrum map) -/
+abbrev Band := Int × Int
+
+/-- `sorted(amp, key=lambda x: x['f_min'])` -/
+def sortBands (l : List Band) : List Band := sorted (fun a b => decide (a.1 ≤ b.1)) l
+
+/-- `remove_duplicates`: first occurrences, order kept -/
+def removeDuplicates : List (List Band) → List (List Band) → List (List Band)
+  | acc, [] => acc
+  | acc, a :: as => if a ∈ acc then removeDuplicates acc as else removeDuplicates (acc ++ [a]) as
+
+/-- one round of step 3 of `find_common_range` -/
+def intersectBands (common bands : List Band) : List Band :=
+  common.flatMap (fun f => bands.filterMap (fun s =>
+    let lo := if f.1 ≤ s.1 then s.1 else f.1
+    let hi := if f.2 ≤ s.2 then f.2 else s.2
+    if lo < hi then some (lo, hi) else none))
+
+/-- `find_common_range` (f_min/f_max only): `ampBands` = the `params.bands` of the amplifiers of an OMS in element order,
+    `dflt` = the SI band used when the OMS has no amplifier -/
+def commonRange (ampBands : List (List Band)) (dflt : Option Band) : List Band :=
+  match removeDuplicates [] (ampBands.map sortBands) with
+  | [] => match dflt with
+    | some d => [d]
+    | none => []
+  | c0 :: rest => sortBands ((c0 :: rest).foldl intersectBands c0)
+
+/-- the cells contributed by the common bands after index `prevMax`: unusable up to the band, free inside
+    `[n(f_min), n(f_max)]`; returns the cells and the last index written -/
+def bandCells (grid : Int) : Int → List Band → List Cell × Int
+  | prevMax, [] => ([], prevMax)
+  | prevMax, b :: bs =>
+    let r := bandCells grid (frequencyToN b.2 grid) bs
+    (rep (frequencyToN b.1 grid - prevMax - 1) Cell.unusable ++
+      rep (frequencyToN b.2 grid - frequencyToN b.1 grid + 1) Cell.free ++ r.1, r.2)
+
+/-- `create_oms_bitmap` (the first band is the case `prevMax = n_min − 1` of the loop; `n_max = frequency_to_n(f_max)`,
+    repair ec64bb7b) -/
+def createOmsBitmap (bands : List Band) (fMin fMax grid : Int) : E (List Cell) :=
+  if grid = 0 then throw "ZeroDivisionError" else
+  match bands with
+  | [] => throw "IndexError"
+  | _ :: _ =>
+    let r := bandCells grid (frequencyToN fMin grid - 1) bands
+    pure (r.1 ++ rep (frequencyToN fMax grid - r.2) Cell.unusable)
+
+/-- `create_oms_bitmap` as it was before the repair (`n_max = frequency_to_n(f_max) − 1`): kept for the witness -/
+def createOmsBitmapOld (bands : List Band) (fMin fMax grid : Int) : E (List Cell) :=
+  if grid = 0 then throw "ZeroDivisionError" else
+  match bands with
+  | [] => throw "IndexError"
+  | _ :: _ =>
+    let r := bandCells grid (frequencyToN fMin grid - 1) bands
+    pure (r.1 ++ rep (frequencyToN fMax grid - 1 - r.2) Cell.unusable)
+
+/-- one line system between two ROADMs: uids from the ingress ROADM to the egress ROADM, and the bands of its amplifiers -/
+structure Chain where
+  els : List String
+  ampBands : List (List Band)
+  deriving Repr
+
+structure OmsRec where
+  id : Nat
+  els : List String
+  bm : Bitmap
+  reversed : Option Nat
+  deriving Repr
+
+/-- `find_network_freq_range`: lowest f_min and highest f_max over all amplifier bands of the network -/
+def networkRange (bands : List Band) : E (Int × Int) :=
+  match bands with
+  | [] => throw "ValueError"
+  | b :: bs => pure (bs.foldl (fun a x => if x.1 < a then x.1 else a) b.1, bs.foldl (fun a x => if x.2 > a then x.2 else a) b.2)
+
+/-- `reversed_oms`: the first OMS that runs between the same two ROADMs the other way -/
+def reversedOms (l : List (List String)) (i : Nat) : Option Nat :=
+  match l[i]? with
+  | none => none
+  | some e => l.findIdx? (fun o => decide (e.head? = o.getLast? ∧ e.getLast? = o.head?))
+
+/-- `build_oms_list` on the chain abstraction: ids in construction order, spectrum map from the common band of the OMS
+    over the network-wide range with the default guard band, alignment, reverse pairing -/
+def buildOmsList (chains : List Chain) (netBands : List Band) (si : Option Band) : E (List OmsRec) := do
+  let (fMin, fMax) ← networkRange netBands
+  let bms ← chains.mapM (fun c => do
+    let cells ← createOmsBitmap (commonRange c.ampBands si) fMin fMax defaultGrid
+    Bitmap.create fMin fMax defaultGrid defaultGuardband (some cells))
+  let aligned ← alignGrids bms
+  let els := chains.map (·.els)
+  pure ((List.range chains.length).filterMap (fun i =>
+    match els[i]?, aligned[i]? with
+    | some e, some b => some { id := i, els := e, bm := b, reversed := reversedOms els i }
+    | _, _ => none))
+
 end Gnpy.Slots
